@@ -1165,3 +1165,50 @@ def twin_c15(l1, a1, l2, a2, meta):
         out.append(V('outbound byte stream of connection %d differs at offset %d: …%s / …%s'
                      % (k, j, p[max(0, j - 4):j + 8].hex(), q[max(0, j - 4):j + 8].hex())))
     return out
+
+
+def _frames_by_conn(acts):
+    out = []
+    for c in connections(acts):
+        frames, tail, err = mqttspec.split_stream(bytes(c['wire']))
+        out.append(([raw for _, _, raw in frames], bytes(tail), err))
+    return out
+
+
+def twin_c13(l1, a1, l2, a2, meta):
+    """l1 = run in which one cancel-safe future was dropped at an await point and the connection driven on;
+    l2 = its uncancelled twin.  Same outbound packet sequence, same delivered messages."""
+    out = []
+    if any((a.result or '') in ('PANIC', 'FUEL') for a in a1 + a2):
+        return out
+    j = next((i for i, a in enumerate(a1) if a.result == 'cancelled'), None)
+    cls = None
+    if j is not None and a1[j].code == 4 and any(e[0] == 'w' and e[2] for e in a1[j].events):
+        cls = 'K13d'          # a disconnect() dropped after part of its DISCONNECT was accepted
+    f1, f2 = _frames_by_conn(a1), _frames_by_conn(a2)
+    if len(f1) != len(f2):
+        out.append(V('cancelled run used %d transports, its twin %d' % (len(f1), len(f2)), cls))
+        return out
+    for k, ((p1, t1, e1), (p2, t2, e2)) in enumerate(zip(f1, f2)):
+        if p1 != p2 or t1 != t2:
+            i = next((i for i, (x, y) in enumerate(zip(p1, p2)) if x != y), min(len(p1), len(p2)))
+            x = p1[i].hex() if i < len(p1) else ('(end, tail %s)' % t1.hex())
+            y = p2[i].hex() if i < len(p2) else ('(end, tail %s)' % t2.hex())
+            out.append(V('outbound packet %d of transport %d: cancelled run %s, uncancelled twin %s' % (i, k, x[:60], y[:60]), cls))
+            return out
+    d1, d2 = _delivered(a1), _delivered(a2)
+    if d1 != d2:
+        out.append(V('delivered messages differ: cancelled run %s, uncancelled twin %s' % (d1[:4], d2[:4]), cls))
+    return out
+
+
+def mon_c13(case_line, acts):
+    """single-run part of C13: a disconnect() whose future was dropped after the transport had accepted bytes of its
+    DISCONNECT leaves a handle that is still live (the packet is neither finished nor forgotten)"""
+    out = []
+    for a in acts:
+        if a.code == 4 and a.result == 'cancelled' and any(e[0] == 'w' and e[2] for e in a.events) \
+                and (a.state or {}).get('live') == '1':
+            out.append(V('disconnect() dropped after the transport accepted %s; the handle is still live'
+                         % ''.join(e[3] for e in a.events if e[0] == 'w' and e[2]), 'K13d'))
+    return out
